@@ -775,6 +775,106 @@ theorem ht_mem_trace (s : HostTState I) (L : List Route) (h : HTRepr T Good IL s
   · simp only [Bool.false_eq_true, if_false, hb]
   · simp only [if_true, rawRoutesOfList_append, List.mem_append, hb, hany]
 
+/-! ### cache -/
+
+omit T Good in
+theorem cacheRelL_map {α : Type} (l : List α) (f f' : α → HK × I.M)
+    (h : ∀ a ∈ l, (f' a).1 = (f a).1 ∧ CacheRel IL (f a).2 (f' a).2) :
+    CacheRelL IL (l.map f) (l.map f') := by
+  induction l with
+  | nil => trivial
+  | cons a l ih =>
+    exact ⟨h a (List.mem_cons_self ..), ih (fun b hb => h b (List.mem_cons_of_mem _ hb))⟩
+
+omit T Good in
+theorem cacheRelL_staticMap : ∀ {a a' : List (String × I.M)}, CacheRelL IL a a' →
+    CacheRelL IL (staticMap a) (staticMap a')
+  | [], [], _ => trivial
+  | [], _ :: _, h => h.elim
+  | _ :: _, [], h => h.elim
+  | e :: l, e' :: l', h => by
+    refine ⟨⟨?_, h.1.2⟩, cacheRelL_staticMap h.2⟩
+    show (HKeyG.static e'.1 : HK) = HKeyG.static e.1
+    rw [h.1.1]
+
+omit T Good in
+theorem cacheRel_refl (b : I.M) : CacheRel IL b b := fun _ h => h
+
+/-- `HostMatcher::cache` returns normally, hands back at most the budget it got, and the new state
+is the old one with every bucket replaced by a cached version and the tree's flags changed. -/
+theorem htrepr_cache (s : HostTState I) (L : List Route) (limit level : Nat) (h : HTRepr T Good IL s L) :
+    HTRepr T Good IL (HostT.cache T I limit level s).1 L ∧ (HostT.cache T I limit level s).2 ≤ limit := by
+  obtain ⟨t1, n1, h1, hs, hn1⟩ := treeCache_spec T.engine s.tree limit (some level)
+  have hc : t1.contents = s.tree.contents := by rw [← contents_strip, hs, contents_strip]
+  have hi : t1.inv T.icHost = true := by rw [← inv_strip, hs, inv_strip]; exact h.inv
+  unfold HostT.cache
+  simp only [h1, Option.getD_some]
+  have hst := cacheAll_spec IL level s.statics n1
+  have hbk := cacheAll_spec IL level (t1.contents.map (fun e => (e.id, e.val))) (cacheAll I level s.statics n1).2
+  generalize hrb : cacheAll I level (t1.contents.map (fun e => (e.id, e.val))) (cacheAll I level s.statics n1).2 = rb at hbk
+  have hret := contents_retain t1 (fun id m => some ((alookup id rb.1).getD m))
+  have hcont : (t1.retain (fun id m => some ((alookup id rb.1).getD m))).contents =
+      s.tree.contents.map (fun e => ⟨e.pat, e.id, (alookup e.id rb.1).getD e.val⟩) := by
+    rw [hret, hc]
+    unfold refRetain
+    induction s.tree.contents with
+    | nil => rfl
+    | cons e l ih => simp [ih]
+  refine ⟨⟨inv_retain _ _ hi, ?_, ?_, ?_⟩, ?_⟩
+  · intro e he
+    simp only at he
+    rw [hcont] at he
+    obtain ⟨e0, he0, rfl⟩ := List.mem_map.mp he
+    exact h.dom e0 he0
+  · intro e he
+    simp only at he
+    rw [hcont] at he
+    obtain ⟨e0, he0, rfl⟩ := List.mem_map.mp he
+    exact h.uniq e0 he0
+  · -- the buckets: static ones by `cacheAll`, tree ones stored back under their id
+    refine lrepr_of_cacheRel IL (Host.keysOf T.host) (absH s) _ L h.repr rfl ?_ ?_
+    · exact fun L' hL' => IL.repr_cache _ L' _ level hL'
+    · simp only [absH]
+      apply cacheRelL_append IL (cacheRelL_staticMap IL hst.1)
+      unfold treeMap
+      rw [hcont, List.map_map]
+      apply cacheRelL_map IL
+      intro e he
+      refine ⟨rfl, ?_⟩
+      simp only [Function.comp]
+      cases hl : alookup e.id rb.1 with
+      | none => exact cacheRel_refl IL _
+      | some b' =>
+        obtain ⟨b, hb, hr⟩ := (cacheRelL_lookup IL hbk.1 e.id).2 b' hl
+        -- ids are distinct (unique tree + distinct bucket keys): the bucket found under the id is `e`'s
+        have hkn : (akeys (treeMap s.tree)).Nodup := by
+          have h0 : (akeys (staticMap s.statics ++ treeMap s.tree)).Nodup := h.repr.nodup
+          simp only [akeys, List.map_append] at h0
+          exact (List.nodup_append.mp h0).2.1
+        have hidn : (akeys (s.tree.contents.map (fun e => (e.id, e.val)))).Nodup := by
+          have : akeys (treeMap s.tree) =
+              (akeys (s.tree.contents.map (fun e => (e.id, e.val)))).map (fun k => (HKeyG.dyn k : HK)) := by
+            unfold akeys treeMap
+            simp only [List.map_map]
+            apply List.map_congr_left
+            intro x hx
+            simp only [Function.comp]
+            rw [h.uniq x hx]
+          rw [this] at hkn
+          exact nodup_of_map_nodup _ _ hkn
+        rw [hc] at hb
+        have hmem : (e.id, e.val) ∈ s.tree.contents.map (fun e => (e.id, e.val)) :=
+          List.mem_map.mpr ⟨e, he, rfl⟩
+        have := alookup_of_mem hidn hmem
+        rw [this] at hb
+        simp only [Option.some.injEq] at hb
+        simp only [Option.getD_some]
+        rw [hb]; exact hr
+  · have h4 := IL.cache_le s.any rb.2 level
+    have h3 := hbk.2
+    have h2 := hst.2
+    omega
+
 /-! ### the laws -/
 
 /-- `HostMatcher` over the real tree satisfies the layer laws, with the `sat` of the
@@ -802,6 +902,20 @@ def hostTLaws : MLaws (hostTOps T I) where
       rw [← htremove_isSome id s]; exact hs
     exact lremove_pos IL _ (absH s) L id h.repr hs'
   repr_batch := fun s L ids h => htrepr_batch T Good IL s L ids h
+  repr_cache := fun s L limit level h => (htrepr_cache T Good IL s L limit level h).1
+  cache_le := by
+    intro (s : HostTState I) limit level
+    -- the budget bound does not need the representation: same chain of `≤`
+    obtain ⟨t1, n1, h1, _, hn1⟩ := treeCache_spec T.engine s.tree limit (some level)
+    show (HostT.cache T I limit level s).2 ≤ limit
+    unfold HostT.cache
+    simp only [h1, Option.getD_some]
+    have hst := (cacheAll_spec IL level s.statics n1).2
+    have hbk := (cacheAll_spec IL level (t1.contents.map (fun e => (e.id, e.val)))
+      (cacheAll I level s.statics n1).2).2
+    have h4 := IL.cache_le s.any (cacheAll I level (t1.contents.map (fun e => (e.id, e.val)))
+      (cacheAll I level s.statics n1).2).2 level
+    omega
   mem_match := by
     intro s L q r h hU
     show r ∈ HostT.matchReq T I s q ↔ _
